@@ -266,7 +266,7 @@ func (s *Server) getTargetInfo(ctx context.Context, targets map[configapi.Target
 	}
 
 	// Use the type/version overrides if they are specified
-	if ttv, ok := overrides.Overrides[string(targetID)]; ok {
+	if ttv, ok := overrides.Overrides[string(targetID)]; ok && ttv != nil {
 		targetType = ttv.TargetType
 		targetVersion = ttv.TargetVersion
 	} else {
